@@ -2,21 +2,31 @@ import HioModel.Basic.Sexp
 import HioModel.Namer.Model
 open Hio Hio.Namer Hio.Sexp
 
-/-- keys on the wire: `-` (None) or `#hex` (utf-8 of a str) -/
-abbrev Key := Option (List Nat)
+/-- keys on the wire: `(k KIND #part …)`.  KIND 0 `None`, 1 `str` (one part: its utf-8), 2 `tuple` (one part per item),
+3 `list` (unhashable), 4 `int` (one part: decimal digits), 5 `dict` (unhashable; key and value parts), 6 `bytes` -/
+structure Key where
+  kind : Nat
+  parts : List (List Nat)
+deriving DecidableEq
 
 instance : Truthy Key where
-  truthy
-    | some (_ :: _) => true
-    | _ => false
+  truthy k :=
+    match k.kind, k.parts with
+    | 0, _ => false
+    | 1, [p] => !p.isEmpty
+    | 4, [p] => p != [48]
+    | 6, [p] => !p.isEmpty
+    | 2, ps => !ps.isEmpty
+    | 3, ps => !ps.isEmpty
+    | 5, ps => !ps.isEmpty
+    | _, _ => true
+  hashable k := k.kind != 3 && k.kind != 5
 
 def key? : Sexp → Option Key
-  | .atom "-" => some none
-  | s => (bytes? s).map some
+  | .list (.atom "k" :: kind :: ps) => do some ⟨← nat? kind, ← ps.mapM bytes?⟩
+  | _ => none
 
-def ofKey : Key → Sexp
-  | none => .atom "-"
-  | some b => ofBytes b
+def ofKey (k : Key) : Sexp := .list (sym "k" :: ofNat k.kind :: k.parts.map ofBytes)
 
 def ltBytes : List Nat → List Nat → Bool
   | [], [] => false
@@ -24,11 +34,14 @@ def ltBytes : List Nat → List Nat → Bool
   | _ :: _, [] => false
   | x :: xs, y :: ys => if x < y then true else if y < x then false else ltBytes xs ys
 
-def ltKey : Key → Key → Bool
-  | none, none => false
-  | none, some _ => true
-  | some _, none => false
-  | some a, some b => ltBytes a b
+def ltParts : List (List Nat) → List (List Nat) → Bool
+  | [], [] => false
+  | [], _ :: _ => true
+  | _ :: _, [] => false
+  | x :: xs, y :: ys => if ltBytes x y then true else if ltBytes y x then false else ltParts xs ys
+
+def ltKey (a b : Key) : Bool :=
+  if a.kind < b.kind then true else if b.kind < a.kind then false else ltParts a.parts b.parts
 
 def insertBy {α} (lt : α → α → Bool) (x : α) : List α → List α
   | [] => [x]
@@ -40,13 +53,13 @@ def items (m : Map Key Key) : Sexp :=
   .list ((sortBy (fun a b => ltKey a.1 b.1) m).map fun (k, v) => .list [ofKey k, ofKey v])
 
 def exnName : Exn → String
-  | .namerError => "NamerError" | .keyError => "KeyError"
+  | .namerError => "NamerError" | .keyError => "KeyError" | .typeError => "TypeError"
 
 def outRes : Except Exn (Out Key Key) → Sexp
   | .error e => tag "raise" [sym (exnName e)]
   | .ok (.bool b) => tag "ok" [ofBool b]
-  | .ok (.addr a) => tag "ok" [match a with | some k => ofKey k | none => .atom "-"]
-  | .ok (.name n) => tag "ok" [match n with | some k => ofKey k | none => .atom "-"]
+  | .ok (.addr a) => tag "ok" [match a with | some k => ofKey k | none => ofKey ⟨0, []⟩]
+  | .ok (.name n) => tag "ok" [match n with | some k => ofKey k | none => ofKey ⟨0, []⟩]
   | .ok (.nat k) => tag "ok" [ofNat k]
   | .ok .unit => tag "ok" [.atom "-"]
 
